@@ -208,7 +208,19 @@ def sym_ufunc(ufunc, method, inputs, kwargs):
     out = kwargs.pop("out", None)
     where = kwargs.pop("where", True)
     if where is not True:
-        raise Unsupported("ufunc where= on symbolic data")
+        if method != "__call__" or out is None:
+            raise Unsupported("ufunc where= without out= on symbolic data")
+        # np.divide(a, b, out=o, where=m): o keeps its value where the mask is false
+        (o,) = out if isinstance(out, tuple) else (out,)
+        full = sym_ufunc(ufunc, "__call__", inputs, dict(kwargs))
+        merged = _WHERE3(_base(where), _base(full), _base(o))
+        if isinstance(o, SymArray):
+            o.view(np.ndarray)[...] = merged
+            return o
+        if isinstance(o, np.ndarray) and not has_sym(merged):
+            o[...] = merged.astype(o.dtype)
+            return o
+        return _wrap(np.asarray(merged, dtype=object))
     kwargs.pop("casting", None)
     kwargs.pop("dtype", None)
     f = _pyf(ufunc)
@@ -640,6 +652,31 @@ def _argsort(a, axis=-1, kind=None, order=None, **kw):
 def _sort(a, axis=-1, kind=None, order=None, **kw):
     a = as_sym(a)
     return a[_argsort(a)]
+
+
+@implements(np.unique)
+def _unique(ar, return_index=False, return_inverse=False, return_counts=False, axis=None, **kw):
+    if return_inverse or return_counts or axis is not None:
+        raise Unsupported("np.unique options on symbolic data")
+    a = as_sym(ar).ravel()
+    order = HANDLED[np.argsort](a)
+    flat = a.view(np.ndarray)
+    keep = []
+    for pos in order:
+        x = Q.lift(flat[pos])
+        if keep:
+            y = Q.lift(flat[keep[-1]])
+            same = bool(x == y) or (bool(x.isnan()) and bool(y.isnan()))
+            if same:
+                # numpy keeps the first occurrence (smallest original index) of equal values
+                if pos < keep[-1]:
+                    keep[-1] = pos
+                continue
+        keep.append(int(pos))
+    vals = a[np.array(keep, dtype=int)] if keep else a[:0]
+    if return_index:
+        return vals, np.array(keep, dtype=int)
+    return vals
 
 
 @implements(np.array_equal)
